@@ -254,7 +254,23 @@ pub fn gen_schema(rng: &mut Rng, cfg: &SchemaCfg) -> Schema {
         for _ in 0..rng.range(1, 4) { let f = rng.pick(&pool).clone(); if !fields.iter().any(|g| g.name == f.name) { fields.push(f); } }
         types.push(TypeDef { name: name.clone(), kind: Kind::Object { implements: impls, fields }, desc: desc(rng) });
     }
-    // every interface needs at least one implementing object (otherwise selections on it are vacuous but still valid)
+    // every interface gets at least one implementing object (a spread on it is otherwise never applicable)
+    for i in &iface_names {
+        let has = types.iter().any(|t| matches!(&t.kind, Kind::Object { implements, .. } if implements.contains(i)));
+        if has { continue; }
+        let target = rng.pick(&obj_names).clone();
+        let mut need: Vec<String> = iface_impls[i].clone();
+        need.push(i.clone());
+        for t in types.iter_mut() {
+            if t.name != target { continue; }
+            if let Kind::Object { implements, fields } = &mut t.kind {
+                for n in &need {
+                    if !implements.contains(n) { implements.push(n.clone()); }
+                    for f in &iface_fields[n] { if !fields.iter().any(|g| g.name == f.name) { fields.push(f.clone()); } }
+                }
+            }
+        }
+    }
     for name in &union_names {
         let mut members: Vec<String> = vec![];
         for o in &obj_names { if rng.chance(1, 2) { members.push(o.clone()); } }
